@@ -8,7 +8,7 @@ mkdir -p $OUT
 export CARGO_NET_OFFLINE=true
 LOG=$OUT/confirm.log; : > $LOG
 echo "== worktree diff vs patch.diff" >> $LOG
-git -C $WT diff -- eqlog eqlog-runtime eqlog-eqlog > /tmp/confirm_$ID.diff
+git -C $WT diff -- eqlog eqlog-runtime eqlog-eqlog/src > /tmp/confirm_$ID.diff
 if diff -q <(grep -v '^index ' /tmp/confirm_$ID.diff) <(grep -v '^index ' $DEMO/patch.diff) >/dev/null; then echo "patch.diff equals the worktree diff" >> $LOG; else echo "NOTE: patch.diff differs from the worktree diff; using the worktree diff" >> $LOG; fi
 cp /tmp/confirm_$ID.diff $OUT/patch.diff
 echo "== test suite with the change applied" >> $LOG
